@@ -238,7 +238,7 @@ func genDepText(t *rapid.T) DepText {
 
 var specC05Fixpoint = Register(&Spec[DepText]{
 	Prop: "C05", Name: "fixpoint",
-	Rule: "candidate strings from (a) all C04 renderings (ASTs x spacing classes), (b) 1..3 byte-level edits of them (insert/delete/replace/duplicate/splice, biased to the token bytes , | ( ) [ ] < > ! $ { } : blank tab newline and to bytes >= 0x80), (c) token soups and raw bytes, (d) the malformed fields of C04/malformed (substvars followed by clauses, unterminated constructs, doubled clauses ...); every string dependency.Parse accepts must render to a string that is accepted, parses to a structurally identical value (names, qualifier triple, operator+number, arch list+negation, profile groups, substvar marker; nil == empty), is itself a fixpoint of render, equals MarshalControl, and reads back through UnmarshalControl. Non-trivial: accepted and not already canonical, or containing a substvar, qualifier, wildcard arch, negated list, >=2 profile groups, version constraint or non-ASCII byte; distinct by text.",
+	Rule:  "candidate strings from (a) all C04 renderings (ASTs x spacing classes), (b) 1..3 byte-level edits of them (insert/delete/replace/duplicate/splice, biased to the token bytes , | ( ) [ ] < > ! $ { } : blank tab newline and to bytes >= 0x80), (c) token soups and raw bytes, (d) the malformed fields of C04/malformed (substvars followed by clauses, unterminated constructs, doubled clauses ...); every string dependency.Parse accepts must render to a string that is accepted, parses to a structurally identical value (names, qualifier triple, operator+number, arch list+negation, profile groups, substvar marker; nil == empty), is itself a fixpoint of render, equals MarshalControl, and reads back through UnmarshalControl. Non-trivial: accepted and not already canonical, or containing a substvar, qualifier, wildcard arch, negated list, >=2 profile groups, version constraint or non-ASCII byte; distinct by text.",
 	Check: func(c DepText, r *Recorder) error { return checkDepFixpoint(c.S, r) },
 })
 
